@@ -152,6 +152,34 @@ def transitive_effects(ix, cls, meth_name, _seen=None):
             continue
         sub = transitive_effects(ix, cls, name, _seen)
         _merge(total, sub)
+    # calls that reach a method of a base class by name: super().m(..), super(C, self).m(..), Base.m(self, ..)
+    from sa.index import ClassInfo, FuncInfo
+    for c in ast.walk(f.node):
+        if not (isinstance(c, ast.Call) and isinstance(c.func, ast.Attribute)):
+            continue
+        recv = c.func.value
+        target = None
+        if isinstance(recv, ast.Call) and isinstance(recv.func, ast.Name) and recv.func.id == 'super':
+            mro = [k for k in ix.mro(cls) if isinstance(k, ClassInfo)]
+            if f.owner in mro:
+                for k in mro[mro.index(f.owner) + 1:]:
+                    if c.func.attr in k.methods:
+                        target = k.methods[c.func.attr]
+                        break
+        elif isinstance(recv, ast.Name) and recv.id not in ('self', 'cls') and c.args and isinstance(c.args[0], ast.Name) and c.args[0].id == 'self':
+            try:
+                ent = ix.resolve_expr(f.module, recv)
+            except Exception:
+                ent = None
+            if isinstance(ent, ClassInfo):
+                target = ix.resolve_method(ent, c.func.attr)
+        if isinstance(target, FuncInfo) and id(target) not in _seen:
+            _seen.add(id(target))
+            _merge(total, method_effects(target))
+            for name in method_effects(target).self_calls:
+                if name in cls_property_names(ix, cls):
+                    continue
+                _merge(total, transitive_effects(ix, cls, name, _seen))
     return total
 
 
